@@ -124,11 +124,14 @@ def trim (s : List Char) : List Char :=
 
 def isDigit (c : Char) : Bool := c.toNat ≥ 48 && c.toNat ≤ 57
 
+/-- An optional leading `+`. -/
+def stripPlus : List Char → List Char
+  | '+' :: rest => rest
+  | s => s
+
 /-- `u32::from_str`: optional leading `+`, then at least one digit, value `< 2^32`. -/
 def parseU32 (s : List Char) : Option Nat :=
-  let s := match s with
-    | '+' :: rest => rest
-    | s => s
+  let s := stripPlus s
   if s.isEmpty || !(s.all isDigit) then none
   else
     let v := s.foldl (fun acc c => acc * 10 + (c.toNat - 48)) 0
@@ -156,6 +159,75 @@ def roaAggregateKeyFromStr (s : List Char) : Option (Option (Nat × Option Nat))
             | none => some none
             | some grp => some (some (asn, some grp))
           | _ => some none
+
+/-! ### counters, versions, time, paging
+
+Further arithmetic sites of krill's own code that see client- or operator-controlled
+numbers.  `usize`/`u64` are 64 bits. -/
+
+/-- `a + b` on a `width`-bit unsigned type. -/
+def checkedAdd (width a b : Nat) : Option Nat :=
+  if a + b < 2 ^ width then some (a + b) else none
+
+/-- A `usize` counter incremented once per matching element (`BgpStats` in api/bgp.rs:278-325,
+`total += 1` in the history paging). -/
+def countChecked {α} (p : α → Bool) (l : List α) : Option Nat :=
+  l.foldl (fun acc x => acc.bind fun n => if p x then checkedAdd 64 n 1 else some n) (some 0)
+
+/-- `record.version + 1` (`u64`, store.rs `update_history_records`) and the other
+"next number" increments. -/
+def nextNumber (v : Nat) : Option Nat := checkedAdd 64 v 1
+
+/-- Seconds since the epoch of chrono's `DateTime::<Utc>::MAX_UTC` / `MIN_UTC`; `DateTime +
+TimeDelta` panics outside. -/
+def maxUtc : Int := 8210266876799
+def minUtc : Int := -8334601228800
+
+/-- `Time::now() + Duration::…` (rpki-rs `Time` is a chrono `DateTime<Utc>`). -/
+def checkedAddSecs (t d : Int) : Option Int :=
+  if minUtc ≤ t + d ∧ t + d ≤ maxUtc then some (t + d) else none
+
+/-- `Time::now() + Duration::weeks(n)` with `n: u32` from the configuration
+(config.rs:729-792, `SignSupport::sign_validity_weeks`). -/
+def nowPlusWeeks (now : Int) (weeks : Nat) : Option Int := checkedAddSecs now (weeks * 604800)
+
+/-- `last_checked + refresh_interval >= now` (analyser.rs:89-94): `last_checked` is
+`i64::MIN` until the first download, `DateTime::from_timestamp` then yields `None` and
+`MIN_UTC` is used; the interval is `u32` minutes from the configuration. -/
+def refreshNotDue (lastChecked : Option Int) (intervalMinutes : Nat) (now : Int) : Option Bool :=
+  (checkedAddSecs (lastChecked.getD minUtc) (intervalMinutes * 60)).map (fun t => decide (t ≥ now))
+
+/-- State of the loop of `command_history_for_records` (store.rs:601-634). -/
+structure Page where
+  skipped : Nat
+  total   : Nat
+  taken   : Nat
+deriving DecidableEq, Repr, Inhabited
+
+/-- One iteration for a record; `hit` = `record.matches(&criteria)`:
+`total += 1; if skipped < offset { skipped += 1 } else if total - skipped <= rows { push }`. -/
+def pageStep (offset rows : Nat) (st : Page) (hit : Bool) : Option Page :=
+  if !hit then some st else do
+    let total ← checkedAdd 64 st.total 1
+    if st.skipped < offset then do
+      let sk ← checkedAdd 64 st.skipped 1
+      some { st with total := total, skipped := sk }
+    else do
+      let d ← checkedSub total st.skipped
+      if d ≤ rows then some { st with total := total, taken := st.taken + 1 }
+      else some { st with total := total }
+
+def pageLoop (offset rows : Nat) : Page → List Bool → Option Page
+  | st, [] => some st
+  | st, h :: rest => (pageStep offset rows st h).bind fun st' => pageLoop offset rows st' rest
+
+/-- `Vec::with_capacity(rows.min(records.len()))` (after fix 6a45cf4f): the requested
+capacity in elements; the allocation panics ("capacity overflow") when it exceeds
+`isize::MAX` bytes. -/
+def pageCapacity (rows len : Nat) : Nat := min rows len
+
+/-- COUNTER-MODEL – before fix 6a45cf4f the capacity was the client's `rows`. -/
+def pageCapacityPinned (rows _len : Nat) : Nat := rows
 
 /-! ### the analyser's count -/
 
